@@ -487,6 +487,8 @@ FIXED = [
     ('code-lookalikes', ISA_A + 'GS*HC*A*B*20200101*1200*1*X*004010X098A1~ST*837*0001~ REF*4*021~REF*5*HL1*~SE*4*0002~GE*1*2~IEA*1*000000009~'),
     ('composite-count', ISA_A + 'GS*HC*A*B*20200101*1200*1*X*004010X098A1~ST*837*0001~HL*1:2**20~HL*2::*1*22~SE*4:*0001~GE*1*1~IEA*1*000000001~'),
     ('short-isa', ISA_A + 'ISA*00*1~IEA*0*1~IEA*1*000000001~'),
+    ('isa-value-ends-with-component-separator', ISA_A.replace('SENDER         ', 'SUBMITTER/0001:').replace('RECEIVER       ', 'RE:CEIVER      ') +
+     'GS*HC*A*B*20200101*1200*1*X*004010X098A1~ST*837*0001~BHT*0019*00*1*20200101*1200*CH~SE*3*0001~GE*1*1~IEA*1*000000001~'),
 ]
 
 
